@@ -359,12 +359,12 @@ def run(eng, rep):
     rep.explain('Also decided: Jacobian and labels come from the same record at the final selection (C11-1b).')
     rep.not_decided += ["equality with an independent fit / 'equals A for linear residuals' (numerical)"]
     A = anchors(eng)
-    rule_pair_written_together(eng, rep)
-    rule_observers_do_not_modify_solver_state(eng, rep)
-    rule_design_matrix_from_evaluated_positions(eng, rep)
-    rule_together(eng, rep)
-    rule_snapshot_is_copy(eng, rep)
-    rule_roles(eng, rep, A, rule="C11-3.labels-are-point-numbers")
+    rep.guarded(rule_pair_written_together, eng, rep)
+    rep.guarded(rule_observers_do_not_modify_solver_state, eng, rep)
+    rep.guarded(rule_design_matrix_from_evaluated_positions, eng, rep)
+    rep.guarded(rule_together, eng, rep)
+    rep.guarded(rule_snapshot_is_copy, eng, rep)
+    rep.guarded(rule_roles, eng, rep, A, rule="C11-3.labels-are-point-numbers")
     from .c03 import rule_tuple_coherence
-    rule_tuple_coherence(eng, rep, A, rule="C11-1b.jacobian-and-labels-come-from-the-same-record")
-    rule_unscaling_once(eng, rep)
+    rep.guarded(rule_tuple_coherence, eng, rep, A, rule="C11-1b.jacobian-and-labels-come-from-the-same-record")
+    rep.guarded(rule_unscaling_once, eng, rep)
